@@ -244,7 +244,7 @@ def _engine_for(sx, mol, sizes):
                     "polyply.src.graph_utils:compute_avg_step_length", "polyply.src.graph_utils:get_all_predecessors"],
            replay=False, must_cover=["forward", "reversed", "two restraints same reference", "two molecule types"],
            outside=["bounds of intermediate path nodes (only the restrained pair is part of the statement)", "branched molecules (rejected by the code)"],
-           bounds={"quick": dict(nmax=5), "thorough": dict(nmax=8)},
+           bounds={"quick": dict(nmax=5), "thorough": dict(nmax=6)},
            budget={"quick": 200, "thorough": 1200})
 def bounds(sx, B):
     """Real set_restraints / set_distance_restraint / compute_avg_step_length on a chain whose length, restraint end points
